@@ -422,7 +422,9 @@ except OSError as e:
                 break
     else:
         obs = rp.run_real(SNIPPET, {"reader": reader, "streams": streams, "size": size, "token": token}, timeout=300)
-    if obs.get("failing"):
+    from pyvc.replay import failing_of
+    if failing_of(obs):
+        obs = dict(obs, failing=failing_of(obs))
         return {"reproduced": True, "call": "%s(sock, buf, ...) under different segmentations of one stream" % reader, "input": obs["failing"],
                 "cases_tried": obs.get("cases")}
     return {"reproduced": False, "searched": obs}
